@@ -322,7 +322,12 @@ class Body:
         if "un" in r:
             return ("un", r["un"], self.expr_of_operand(r["a"], depth))
         if "cast" in r:
-            return ("cast", r["cast"], self.expr_of_operand(r["a"], depth), r["ty"])
+            inner = self.expr_of_operand(r["a"], depth)
+            if r["cast"] == "IntToInt" and inner[0] == "const" and isinstance(inner[1], int):
+                bits = {"u8": 8, "u16": 16, "u32": 32, "u64": 64, "usize": 64, "u128": 128}.get(r["ty"])
+                if bits and inner[1] >= 0:
+                    return ("const", inner[1] & ((1 << bits) - 1), r["ty"])
+            return ("cast", r["cast"], inner, r["ty"])
         if "discr" in r:
             return ("discr", self.expr_of_place(r["discr"], depth))
         if "agg" in r:
